@@ -1392,6 +1392,10 @@ func checkV1KeysAndPaths(c *Ctx, p *core.Prog, norm *ssa.Function) {
 						guarded = true
 					}
 				}
+				// `if m.findExactMatches(known) { return }`: a helper with one boolean result
+				if call, isCall := f.Cond.(*ssa.Call); isCall && !f.Truth && exactVals[call] && isBool(call.Type()) && falseOnlyWhenScanEmpty(call.Call.StaticCallee(), 0, exactName) {
+					guarded = true
+				}
 				cmp, ok := f.AsCmp()
 				if !ok {
 					continue
